@@ -265,9 +265,11 @@ fn initialize_error_on_this(
     let stack_key = interp.property_key("stack");
 
     let mut obj_ref = obj.borrow_mut();
-    obj_ref.set_property(name_key, JsValue::String(JsString::from(name)));
-    obj_ref.set_property(message_key, JsValue::String(msg_str.clone()));
-    obj_ref.set_property(stack_key, JsValue::String(stack));
+    // Own but not enumerable: Object.keys(new Error("x")) is empty
+    let hidden = |value: JsValue| crate::value::Property::with_attributes(value, true, false, true);
+    obj_ref.define_property(name_key, hidden(JsValue::String(JsString::from(name))));
+    obj_ref.define_property(message_key, hidden(JsValue::String(msg_str.clone())));
+    obj_ref.define_property(stack_key, hidden(JsValue::String(stack)));
 }
 
 /// `new Error(message, { cause })`: an own, non-enumerable `cause` when the options have one
@@ -461,9 +463,11 @@ pub fn create_error_object(
 
     {
         let mut obj = error_obj.borrow_mut();
-        obj.set_property(name_key, JsValue::String(JsString::from(name)));
-        obj.set_property(message_key, JsValue::String(msg_str));
-        obj.set_property(stack_key, JsValue::String(stack_str));
+        let hidden =
+            |value: JsValue| crate::value::Property::with_attributes(value, true, false, true);
+        obj.define_property(name_key, hidden(JsValue::String(JsString::from(name))));
+        obj.define_property(message_key, hidden(JsValue::String(msg_str)));
+        obj.define_property(stack_key, hidden(JsValue::String(stack_str)));
     }
 
     (JsValue::Object(error_obj), Some(guard))
